@@ -36,7 +36,11 @@ def worktree(name, patch):
         raise SystemExit("worktree add failed: " + r.stderr)
     r = sh(["git", "-C", wt, "apply", os.path.abspath(patch)])
     if r.returncode:
-        raise SystemExit("patch does not apply: " + r.stderr)
+        # the tree moved since the patch was written (fix: commits): fall back to a 3-way application
+        r = sh(["git", "-C", wt, "apply", "--3way", os.path.abspath(patch)])
+        if r.returncode:
+            raise SystemExit("patch does not apply: " + r.stderr)
+        sh(["git", "-C", wt, "reset", "-q"])
     return wt
 
 
